@@ -16,30 +16,42 @@ theorem fromWords_in_domain (c : Conv) (env : EvalEnv) (opt : AttrVal) (ws : Lis
 
 /-- `int(value_min, value_max, allow_none)`: `None` (only when allowed), `Auto`, a Python `int`, or
     `True`/`False` (instances of `int`; compared as 1/0) — never a float, `inf` or `nan`.  Bounds
-    are stated as the code guarantees them: `v < value_min` and `value_max < v` are both false. -/
+    are stated as the code guarantees them: `value_min <= v` and `v <= value_max` are both true
+    (Python comparisons, `pyLe`). -/
 theorem int_in_domain (a : NumArgs) (env : EvalEnv) (opt : AttrVal) (ws : List Word) (v : PVal)
     (h : fromWords (.int a) env opt ws = .ok v) :
     (v = .none ∧ a.allowNone = true) ∨ v = .auto ∨
     (∃ i, v = .num (.int i) ∧
-       (∀ lo, a.valueMin = some lo → pyLt (.int i) lo = false) ∧
-       (∀ hi, a.valueMax = some hi → pyLt hi (.int i) = false)) ∨
+       (∀ lo, a.valueMin = some lo → pyLe lo (.int i) = true) ∧
+       (∀ hi, a.valueMax = some hi → pyLe (.int i) hi = true)) ∨
     (∃ b, v = .bool b ∧
-       (∀ lo, a.valueMin = some lo → pyLt (.int (if b then 1 else 0)) lo = false) ∧
-       (∀ hi, a.valueMax = some hi → pyLt hi (.int (if b then 1 else 0)) = false)) := by
+       (∀ lo, a.valueMin = some lo → pyLe lo (.int (if b then 1 else 0)) = true) ∧
+       (∀ hi, a.valueMax = some hi → pyLe (.int (if b then 1 else 0)) hi = true)) := by
   have := (inDomain_int a v).mp (Phil.fromWords_in_domain _ env opt ws v h)
   simpa only [boundsOk_iff] using this
 
 /-- `float(...)`: `None` (only when allowed), `Auto`, or a Python `float` — a finite `n/d`, `inf`,
     `-inf` or `nan`; never an `int` (ints are converted, `3` becomes `3.0` = `flt 3 1`) and never a
-    `bool`. -/
+    `bool`.  The declared bounds hold as Python `<=`; in particular the value is `nan` only when no
+    bound is declared. -/
 theorem float_in_domain (a : NumArgs) (env : EvalEnv) (opt : AttrVal) (ws : List Word) (v : PVal)
     (h : fromWords (.float a) env opt ws = .ok v) :
     (v = .none ∧ a.allowNone = true) ∨ v = .auto ∨
     (∃ n, v = .num n ∧ (∀ i, n ≠ .int i) ∧
-       (∀ lo, a.valueMin = some lo → pyLt n lo = false) ∧
-       (∀ hi, a.valueMax = some hi → pyLt hi n = false)) := by
-  have := (inDomain_float a v).mp (Phil.fromWords_in_domain _ env opt ws v h)
-  simpa only [boundsOk_iff] using this
+       (∀ lo, a.valueMin = some lo → pyLe lo n = true) ∧
+       (∀ hi, a.valueMax = some hi → pyLe n hi = true) ∧
+       (n = .nan → a.valueMin = none ∧ a.valueMax = none)) := by
+  rcases (inDomain_float a v).mp (Phil.fromWords_in_domain _ env opt ws v h) with h | h | ⟨n, h1, h2, h3⟩
+  · exact .inl h
+  · exact .inr (.inl h)
+  · refine .inr (.inr ⟨n, h1, h2, ((boundsOk_iff _ _ _).mp h3).1, ((boundsOk_iff _ _ _).mp h3).2, ?_⟩)
+    intro hn
+    subst hn
+    exact (boundsOk_nan_iff _ _).mp h3
+
+/-- what the Python `<=` of the bounds means: neither side is `nan` and the reverse `<` is false -/
+theorem pyLe_iff (x y : PNum) : pyLe x y = true ↔ x ≠ .nan ∧ y ≠ .nan ∧ pyLt y x = false :=
+  Phil.pyLe_iff x y
 
 /-- `bool`: `None`, `Auto`, `True` or `False`. -/
 theorem bool_in_domain (env : EvalEnv) (opt : AttrVal) (ws : List Word) (v : PVal)
@@ -99,19 +111,40 @@ theorem floats_in_domain (a : ListArgs) (env : EvalEnv) (opt : AttrVal) (ws : Li
   · rw [sizeOk_iff] at h2
     exact .inr (.inr ⟨l, h1, h2.1, h2.2, fun x hx => elemOk_elemInDomain _ _ _ (h3 x hx)⟩)
 
-/-- Recorded finding: `nan` passes every `value_min`/`value_max`, because both comparisons of
-    `_check_value` are false on `nan`.  Here: `float(value_min=0)` returns `nan`. -/
-theorem nan_passes_bounds (env : EvalEnv) (he : env "nan".toList = some (.num .nan)) :
+/-- `nan` no longer passes a declared bound (`_check_value` now tests `value_min <= v` and
+    `v <= value_max`, both false on `nan`).  Here: `float(value_min=0)` refuses `nan`. -/
+theorem nan_refused_by_bounds (env : EvalEnv) (he : env "nan".toList = some (.num .nan)) :
     fromWords (.float { valueMin := some (.int 0) }) env .none [⟨"nan".toList, none, some 1⟩]
-      = .ok (.num .nan) :=
-  Phil.nan_passes_bounds env he
+      = .error (.runtime "value_min" (some 1)) :=
+  Phil.nan_refused_by_bounds env he
 
-/-- … and so for any bounds, any text that evaluates to `nan`. -/
-theorem nan_passes_bounds_gen (env : EvalEnv) (a : NumArgs) (opt : AttrVal) (ws : List Word) (s : Str)
+/-- … and so for any declared bound, any text that evaluates to `nan`: the error is "value_min" when
+    `value_min` is declared, otherwise "value_max". -/
+theorem nan_refused_by_bounds_gen (env : EvalEnv) (a : NumArgs) (opt : AttrVal) (ws : List Word) (s : Str)
     (hw : strFromWords ws = .str s) (hs : isSpecialNumText s = false)
-    (he : env s = some (.num .nan)) :
+    (he : env s = some (.num .nan))
+    (hb : a.valueMin.isSome = true ∨ a.valueMax.isSome = true) :
+    fromWords (.float a) env opt ws =
+      .error (.runtime (if a.valueMin.isSome then "value_min" else "value_max") (firstLine ws)) :=
+  Phil.nan_refused_by_bounds_gen env a opt ws s hw hs he hb
+
+/-- without any bound `nan` is a legitimate float value -/
+theorem nan_accepted_without_bounds (env : EvalEnv) (a : NumArgs) (opt : AttrVal) (ws : List Word) (s : Str)
+    (hw : strFromWords ws = .str s) (hs : isSpecialNumText s = false)
+    (he : env s = some (.num .nan))
+    (h1 : a.valueMin = none) (h2 : a.valueMax = none) :
     fromWords (.float a) env opt ws = .ok (.num .nan) :=
-  Phil.nan_passes_bounds_gen env a opt ws s hw hs he
+  Phil.nan_accepted_without_bounds env a opt ws s hw hs he h1 h2
+
+/-- the domain of a float type (and of the elements of a `floats` list) contains `nan` exactly when
+    no bound is declared -/
+theorem inDomain_float_nan (a : NumArgs) :
+    InDomain (.float a) (.num .nan) = true ↔ a.valueMin = none ∧ a.valueMax = none :=
+  Phil.inDomain_float_nan a
+
+theorem elemOk_float_nan (a : ListArgs) :
+    elemOk false a (.num .nan) = true ↔ a.valueMin = none ∧ a.valueMax = none :=
+  Phil.elemOk_float_nan a
 
 /-- `bool_from_words` accepts exactly the eight spellings (case-insensitively): the result is
     `True` iff the joined text is one of true/yes/on/1, `False` iff one of false/no/off/0. -/
@@ -197,8 +230,15 @@ example : fromWords (.floats { valueMin := some (.int 3) }) envEx .none [W "3", 
     = .error (.runtime "value_min" (some 1)) := by with_unfolding_all rfl
 example : fromWords .bool envEx .none [W "YES"] = .ok (.bool true) := by rfl
 example : fromWords .bool envEx .none [W "maybe"] = .error (.runtime "bool_expected" (some 1)) := by rfl
-example : fromWords (.float { valueMin := some (.int 0) }) envEx .none [W "nan"] = .ok (.num .nan) :=
-  nan_passes_bounds_gen envEx _ _ _ "nan".toList (by rfl) (by rfl) (by rfl)
+example : fromWords (.float { valueMin := some (.int 0) }) envEx .none [W "nan"]
+    = .error (.runtime "value_min" (some 1)) :=
+  nan_refused_by_bounds_gen envEx _ _ _ "nan".toList (by rfl) (by rfl) (by rfl) (.inl rfl)
+example : fromWords (.float { valueMax := some (.int 0) }) envEx .none [W "nan"]
+    = .error (.runtime "value_max" (some 1)) :=
+  nan_refused_by_bounds_gen envEx _ _ _ "nan".toList (by rfl) (by rfl) (by rfl) (.inr rfl)
+example : fromWords (.float {}) envEx .none [W "nan"] = .ok (.num .nan) :=
+  nan_accepted_without_bounds envEx _ _ _ "nan".toList (by rfl) (by rfl) (by rfl) rfl rfl
+example : InDomain (.float { valueMin := some (.int 0) }) (.num .nan) = false := by rfl
 example : InDomain (.int { valueMin := some (.int 0) }) (.num (.int (-1))) = false := by rfl
 example : InDomain (.int {}) (.num (.flt 1 2)) = false := by rfl
 example : InDomain (.ints { sizeMin := some 2 }) (.list [.num (.int 1)]) = false := by rfl
